@@ -324,6 +324,35 @@ func c12Skeletons(r *Run) {
 		case gk != ans[i]:
 			r.TieBreak("Nest model ≙ parseTpl", c, gk, ans[i])
 		}
+		// comments are removed before anything else: the same skeleton with comments written between its tags —
+		// two or more on ONE line, with tags between them — parses to the same result (same verdict, same tree)
+		if i%3 == 0 && !res.Timeout && res.Panic == "" {
+			spans := c12TagSpans([]byte(c.Src))
+			if len(spans) >= 1 {
+				var sb strings.Builder
+				prev := 0
+				for k, sp := range spans {
+					sb.WriteString(c.Src[prev:sp[0]])
+					if k == 0 || k == len(spans)-1 || (i+k)%2 == 0 {
+						sb.WriteString("{# note " + strconv.Itoa(k) + " #}")
+					}
+					sb.WriteString(c.Src[sp[0]:sp[1]])
+					prev = sp[1]
+				}
+				sb.WriteString(c.Src[prev:])
+				sb.WriteString("{# end #}")
+				res2 := c12ParseWatch([]byte(sb.String()), c.KeepFmt)
+				r.Dist["sk:commented"]++
+				same := res2.kind() == gk
+				if same && gk == "ok" && res.Tree != nil && res2.Tree != nil {
+					same = string(dyntpl.VerifDumpTree(res.Tree)) == string(dyntpl.VerifDumpTree(res2.Tree))
+				}
+				if !same {
+					r.Violate("comments-change-parse "+sig+" src="+hx([]byte(sb.String())), "the same template with comments between its tags parses differently (verdict "+gk+" vs "+res2.kind()+")",
+						map[string]any{"skeleton": c.Eff, "src": c.Src, "src_with_comments": sb.String(), "go": gk, "go_with_comments": res2.kind()})
+				}
+			}
+		}
 	}
 	r.Exhaustive = true
 	r.Notes = append(r.Notes, fmt.Sprintf("skeleton stream: %d balanced bases (≤ %d tags, depth ≤ %d), %d distinct skeletons with all single-tag edits; enumeration complete",
